@@ -1,0 +1,313 @@
+//go:build verif
+
+// Contracts for the grammar analyses of package tree (property C15), read by /verif/govc (comment-only; not part of any
+// build). Syntax: see the header of govc/contract.go. Unit "tree" (govc/main.go, loadTreeUnit).
+//
+// Property C15: generation reports "used but not defined" for exactly the referenced names that have no definition,
+// "defined but not used" for exactly the rules unreachable from the first rule, and "possible infinite left recursion"
+// exactly when some rule can re-enter itself without having consumed input (through any operator, including ? * & !).
+// With -strict any such diagnostic makes generation fail; a grammar with none generates silently; a rule defined twice is
+// diagnosed rather than crashing the generator.
+//
+// VERIFIED here (partial correctness: termination of the two recursive walks is not proved), under wf(t) below:
+//   - list primitives Init/PushFront/PushBack/PopFront/Front/Next/Len: no nil dereference, frame, rep invariant
+//   - warn: sets t.werr to a non-nil error, touches nothing else
+//   - checkRecursion: memory safety, frame, marks restored, what is visited per operator, the result in both directions,
+//     one diagnostic per re-entry of a marked rule and none otherwise
+//   - countRules: memory safety, frame, visited set = closed under the walk's edges and inside every closed set containing
+//     the start (= the reachable set), rulesCount[name] = number of entries of that rule, entry present <=> rule visited
+//   - CheckAlwaysSucceeds / checkAlwaysSucceedsRecursion: memory safety, frame, in-progress set restored
+//
+// ASSUMED (not verified; Compile is 750 lines of closures and text/template outside the verified subset):
+//   A1 Compile calls the analyses on a tree satisfying wf(t) for the ghost choice  t.nodes = every node reachable from
+//      the TypeRule elements of t's list through the walk's edges,  kids/pos = the list structure: the first pass wraps
+//      every rule body in an implicit push, link registers a stub rule for every undefined name (so every TypeName has
+//      t.Rules[name] != nil, of TypeRule), rule ids are distinct and < t.RulesCount, ruleReached = make([]bool, t.RulesCount),
+//      child lists are nil-terminated chains built by PushBack/PushFront; no TypeUnorderedAlternate exists yet (they are
+//      created only by the -switch pass, which runs after the analyses; checkRecursion's contract claims nothing for that type).
+//   A2 countRules is called once, on the first TypeRule element, with all marks false, t.rulesCount empty (written only by
+//      countRules), cvis/open empty, hits 0; t.Rules[name] is the (only) definition of name (wfDefs; a second definition now
+//      makes Compile return an error in the first pass, F8).
+//   A3 checkRecursion is called on every TypeRule element with all marks false (each call restores them: proved).
+//   A4 The two walks run in two goroutines. By the verified frames they write disjoint memory (countRules: its own marks and
+//      the t.rulesCount map; checkRecursion: its own marks and t.werr) and neither writes what the other reads.
+//   A5 Emission loop: "used but not defined" is issued exactly for the stub rules made by link (now marked "<undefined>",
+//      F9), except PegText; "defined but not used" exactly for the rules without an entry in t.rulesCount.
+//   A6 t.werr is assigned only in warn (syntactic check: no other assignment in the package); at its end Compile returns
+//      t.werr when t.Strict && t.werr != nil, and main turns a non-nil error into log.Fatal (exit status 1; unit "main").
+//   A7 fmt.Errorf returns a non-nil error and modifies nothing. range over n.Iterator()/Iterator2() walks n.front, .next, ...
+//      (model: govc/expr.go ListIter; the loader checks the source text of the two methods). slices.Collect(seq) returns
+//      the yielded values in order; slices.ContainsFunc(s, f) is `for _, v := range s { if f(v) { return true } }; return false`.
+//   A8 machine arithmetic on counters (uint count + 1 in countRules) is treated as mathematical.
+
+package tree
+
+//@ func Type.GetType
+//@   ensures result == t
+//@ func node.String
+//@   requires n != nil
+//@   ensures result == n.string
+//@ func node.GetID
+//@   requires n != nil
+//@   ensures result == n.id
+//@ func node.Front
+//@   requires n != nil
+//@   ensures result == n.front
+//@ func node.Next
+//@   requires n != nil
+//@   ensures result == n.next
+//@ func node.Len
+//@   requires n != nil
+//@   ensures c == n.length
+
+//@ -- ------------------------------------------------------------------------------------------------------------------
+//@ -- list primitives. rep(n): front == nil <=> back == nil <=> length == 0.
+//@ const MAXINT = 9223372036854775807
+//@ pred rep(n *node) = (n.front == nil) == (n.back == nil) && (n.front == nil) == (n.length == 0) && n.length >= 0
+
+//@ func node.Init
+//@   requires n != nil
+//@   ensures rep(n) && n.front == nil && n.length == 0
+//@   modifies node.front, node.back, node.length at r where r == n
+
+//@ func node.PushFront
+//@   requires n != nil && value != nil && rep(n) && n.length < MAXINT
+//@   ensures rep(n)
+//@   ensures n.front == value && n.length == old(n.length) + 1
+//@   ensures old(n.front) == nil ==> n.back == value && value.next == old(value.next)
+//@   ensures old(n.front) != nil ==> n.back == old(n.back) && value.next == old(n.front)
+//@   modifies node.front, node.back, node.length at r where r == n
+//@   modifies node.next at r where r == value
+//@   overflow checked
+
+//@ func node.PushBack
+//@   requires n != nil && value != nil && rep(n) && n.length < MAXINT
+//@   ensures rep(n)
+//@   ensures n.back == value && n.length == old(n.length) + 1
+//@   ensures old(n.front) == nil ==> n.front == value
+//@   ensures old(n.front) != nil ==> n.front == old(n.front) && old(n.back).next == value
+//@   modifies node.front, node.back, node.length at r where r == n
+//@   modifies node.next at r where r == old(n.back)
+//@   overflow checked
+
+//@ -- PopFront: rep alone is not preserved by removing an element (length has to agree with the number of elements): the
+//@ -- additional precondition says that the list has one element exactly when length == 1, and that a list whose first
+//@ -- element is not its last has a second element. The panic on an empty list is excluded by n.front != nil.
+//@ func node.PopFront
+//@   requires n != nil && rep(n) && n.front != nil
+//@   requires (n.front == n.back) == (n.length == 1) && imp(n.front != n.back, n.front.next != nil)
+//@   ensures rep(n)
+//@   ensures result == old(n.front) && result != nil && n.length == old(n.length) - 1
+//@   ensures old(n.front) == old(n.back) ==> n.front == nil && result.next == old(result.next)
+//@   ensures old(n.front) != old(n.back) ==> n.front == old(n.front.next) && n.back == old(n.back) && result.next == nil
+//@   modifies node.front, node.back, node.length at r where r == n
+//@   modifies node.next at r where r == old(n.front)
+//@   overflow checked
+
+//@ -- ------------------------------------------------------------------------------------------------------------------
+//@ -- diagnostics. Ghost Tree.nwarn counts the calls of warn.
+//@ ghostfield Tree.nwarn int
+//@ func Tree.warn
+//@   requires t != nil
+//@   ensures t.werr != nil && t.nwarn == old(t.nwarn) + 1
+//@   modifies Tree.werr, Tree.nwarn at r where r == t
+//@   ghost entry : t.nwarn = t.nwarn + 1
+
+//@ -- ------------------------------------------------------------------------------------------------------------------
+//@ -- Well-formedness of the grammar tree as the analyses see it (after the first pass and the link pass of Compile).
+//@ -- ASSUMED about Compile (which is outside the verified subset): it calls the analyses on a tree for which wf holds.
+//@ --   Tree.nodes  the nodes the analyses can reach: closed under  rule/<>/implicit-push -> front,  name -> t.Rules[name],
+//@ --               list node (alternate, sequence, & ! ? * +) -> every child
+//@ --   node.kids   the children of a list node (the elements of the chain front, front.next, ...)
+//@ --   node.pos    a key that increases along next (position in the parent's list; not necessarily contiguous)
+//@ ghostfield Tree.nodes set
+//@ ghostfield node.kids set
+//@ ghostfield node.pos int
+//@ pred frontT(k) = k == TypeRule || k == TypePush || k == TypeImplicitPush
+//@ pred fixT(k) = k == TypePeekFor || k == TypePeekNot || k == TypeQuery || k == TypeStar || k == TypePlus
+//@ pred listT(k) = k == TypeAlternate || k == TypeUnorderedAlternate || k == TypeSequence || fixT(k)
+//@ pred ruleOf(t *Tree, m *node) = mapGet(t.Rules, m.string)
+//@ -- W0: nodes are objects; rule/<>/implicit-push/& ! ? * + have a first child, which is a node
+//@ pred W0(t *Tree) = forall(m * node, in(m, t.nodes) ==> m != nil)
+//@ pred W1(t *Tree) = forall(m * node, trig(in(m, t.nodes)), in(m, t.nodes) && (frontT(m.Type) || fixT(m.Type)) ==> m.front != nil && in(m.front, t.nodes))
+//@ -- W2: rule ids index ruleReached (a slice of length t.RulesCount) and identify the rule
+//@ pred W2(t *Tree) = forall(m * node, trig(in(m, t.nodes)), in(m, t.nodes) && m.Type == TypeRule ==> 0 <= m.id && m.id < t.RulesCount)
+//@ pred W2u(t *Tree) = forall(m * node, r * node, trig(in(m, t.nodes), in(r, t.nodes)), in(m, t.nodes) && in(r, t.nodes) && m.Type == TypeRule && r.Type == TypeRule && m.id == r.id ==> m == r)
+//@ -- W3: every name refers to a rule registered in t.Rules (link adds a stub rule for an undefined name)
+//@ pred W3(t *Tree) = forall(m * node, trig(in(m, t.nodes)), in(m, t.nodes) && m.Type == TypeName ==> mapHas(t.Rules, m.string) && ruleOf(t, m) != nil
+//@        && in(ruleOf(t, m), t.nodes) && ruleOf(t, m).Type == TypeRule)
+//@ -- K*: the children of a list node m: front is the first, next stays inside, pos orders them and next is the successor
+//@ pred K1(t *Tree) = forall(m * node, trig(in(m, t.nodes)), in(m, t.nodes) && listT(m.Type) ==> (m.front != nil ==> in(m.front, m.kids)))
+//@ pred K2(t *Tree) = forall(m * node, c * node, trig(in(m, t.nodes), in(c, m.kids)), in(m, t.nodes) && listT(m.Type) && in(c, m.kids) ==>
+//@        c != nil && in(c, t.nodes) && m.front != nil && m.front.pos <= c.pos && imp(c.next != nil, in(c.next, m.kids)))
+//@ pred K3(t *Tree) = forall(m * node, c * node, d * node, trig(in(m, t.nodes), in(c, m.kids), in(d, m.kids)), in(m, t.nodes) && listT(m.Type) && in(c, m.kids) && in(d, m.kids) ==>
+//@        imp(c.pos < d.pos, c.next != nil && c.next.pos <= d.pos) && imp(c.pos == d.pos, c == d))
+//@ pred wf(t *Tree) = t != nil && W0(t) && W1(t) && W2(t) && W2u(t) && W3(t) && K1(t) && K2(t) && K3(t)
+
+//@ -- ------------------------------------------------------------------------------------------------------------------
+//@ -- checkRecursion(n, ruleReached): walk from n over everything that can be entered at the same input position;
+//@ -- ruleReached marks the rules on the current path; a rule entered while marked is diagnosed. Result: "n consumes".
+//@ -- Ghost logs (all of them only grow):
+//@ --   Tree.visited  nodes on which checkRecursion has been entered
+//@ --   Tree.cons     nodes for which a completed checkRecursion returned true
+//@ --   Tree.nulls    nodes for which a completed checkRecursion returned false
+//@ --   Tree.diag     rule nodes entered while marked (re-entries);  Tree.reent counts them
+//@ ghostfield Tree.visited set
+//@ ghostfield Tree.cons set
+//@ ghostfield Tree.nulls set
+//@ ghostfield Tree.diag set
+//@ ghostfield Tree.reent int
+//@ pred reentry(n *node, rr []bool) = n.Type == TypeRule && rr[n.id]
+//@ pred grows(t *Tree) = forall(m * node, old(in(m, t.visited)) ==> in(m, t.visited)) && forall(m * node, old(in(m, t.cons)) ==> in(m, t.cons))
+//@        && forall(m * node, old(in(m, t.diag)) ==> in(m, t.diag)) && forall(m * node, old(in(m, t.nulls)) ==> in(m, t.nulls))
+//@ pred sameMarks(rr []bool) = forall(i, 0 <= i && i < len(rr) ==> rr[i] == old(rr[i]))
+//@ pred before(c *node, x *node) = x == nil || c.pos < x.pos
+//@ -- frame carried through the loops: only t's diagnostics and logs and the marks change
+//@ pred frameCR(t *Tree, rr []bool) = frameOld("Tree.werr", t) && frameOld("Tree.nwarn", t) && frameOld("Tree.visited", t) && frameOld("Tree.cons", t) && frameOld("Tree.nulls", t)
+//@        && frameOld("Tree.diag", t) && frameOld("Tree.reent", t) && frameOld("Elems.Bool", sbase(rr))
+//@ func Tree.checkRecursion
+//@   requires wf(t) && in(n, t.nodes) && len(ruleReached) == t.RulesCount
+//@   -- logs and marks
+//@   ensures in(n, t.visited) && grows(t) && sameMarks(ruleReached)
+//@   ensures result ==> in(n, t.cons)
+//@   ensures !result ==> in(n, t.nulls)
+//@   -- diagnostics: one per re-entry, none otherwise
+//@   ensures old(reentry(n, ruleReached)) ==> in(n, t.diag) && !result
+//@   ensures t.nwarn - old(t.nwarn) == t.reent - old(t.reent) && t.reent >= old(t.reent)
+//@   ensures t.reent == old(t.reent) ==> t.werr == old(t.werr)
+//@   ensures t.reent > old(t.reent) ==> t.werr != nil
+//@   -- what is visited, per operator: everything that can be entered without input having been consumed
+//@   ensures n.Type == TypeRule && !old(reentry(n, ruleReached)) ==> in(n.front, t.visited)
+//@   ensures n.Type == TypeName ==> in(ruleOf(t, n), t.visited)
+//@   -- (the next two clauses are the ones the unrepaired code violates: finding F7)
+//@   ensures n.Type == TypePush || n.Type == TypeImplicitPush || fixT(n.Type) ==> in(n.front, t.visited)
+//@   ensures n.Type == TypeAlternate ==> forall(c * node, in(c, n.kids) ==> in(c, t.visited))
+//@   ensures n.Type == TypeSequence ==> forall(c * node, in(c, n.kids) ==> in(c, t.visited) || exists(d * node, in(d, n.kids) && d.pos < c.pos && in(d, t.cons)))
+//@   -- result == true is justified structurally (hence: the expression cannot succeed without consuming input)
+//@   ensures result ==> ((n.Type == TypeCharacter || n.Type == TypeString) && len(n.string) > 0) || n.Type == TypeDot || n.Type == TypeRange
+//@        || ((n.Type == TypeRule || n.Type == TypePlus || n.Type == TypePush || n.Type == TypeImplicitPush) && in(n.front, t.cons))
+//@        || (n.Type == TypeName && in(ruleOf(t, n), t.cons))
+//@        || (n.Type == TypeAlternate && forall(c * node, in(c, n.kids) ==> in(c, t.cons)))
+//@        || (n.Type == TypeSequence && exists(c * node, in(c, n.kids) && in(c, t.cons)))
+//@   -- ... and so is result == false (the two clauses together determine the result from the results of the visits below n)
+//@   ensures !result ==> ((n.Type == TypeCharacter || n.Type == TypeString) && len(n.string) == 0)
+//@        || (n.Type == TypeRule && (old(reentry(n, ruleReached)) || in(n.front, t.nulls)))
+//@        || ((n.Type == TypePlus || n.Type == TypePush || n.Type == TypeImplicitPush) && in(n.front, t.nulls))
+//@        || (n.Type == TypeName && in(ruleOf(t, n), t.nulls))
+//@        || (n.Type == TypeAlternate && exists(c * node, in(c, n.kids) && in(c, t.nulls)))
+//@        || (n.Type == TypeSequence && forall(c * node, in(c, n.kids) ==> in(c, t.nulls)))
+//@        || n.Type == TypeQuery || n.Type == TypeStar || n.Type == TypePeekFor || n.Type == TypePeekNot
+//@        || !(n.Type == TypeCharacter || n.Type == TypeString || n.Type == TypeDot || n.Type == TypeRange || frontT(n.Type) || fixT(n.Type)
+//@             || n.Type == TypeName || n.Type == TypeAlternate || n.Type == TypeSequence)
+//@   modifies Elems.Bool at b where b == sbase(ruleReached)
+//@   modifies Tree.werr, Tree.nwarn, Tree.visited, Tree.cons, Tree.nulls, Tree.diag, Tree.reent at r where r == t
+//@   ghost entry : t.visited = add(t.visited, n)
+//@   ghost return : t.cons = ite(result, add(t.cons, n), t.cons)
+//@   ghost return : t.nulls = ite(result, t.nulls, add(t.nulls, n))
+//@   ghost return : t.diag = ite(old(reentry(n, ruleReached)), add(t.diag, n), t.diag)
+//@   ghost return : t.reent = t.reent + ite(old(reentry(n, ruleReached)), 1, 0)
+//@   -- loop 0: the alternatives
+//@   loop 0 invariant frameCR(t, ruleReached)
+//@   loop 0 invariant in(n, t.visited) && grows(t) && sameMarks(ruleReached)
+//@   loop 0 invariant t.nwarn - old(t.nwarn) == t.reent - old(t.reent) && t.reent >= old(t.reent)
+//@   loop 0 invariant imp(t.reent == old(t.reent), t.werr == old(t.werr)) && imp(t.reent > old(t.reent), t.werr != nil)
+//@   loop 0 invariant cur() == nil || in(cur(), n.kids)
+//@   loop 0 invariant forall(c * node, in(c, n.kids) && before(c, cur()) ==> in(c, t.visited))
+//@   loop 0 invariant consumes ==> forall(c * node, in(c, n.kids) && before(c, cur()) ==> in(c, t.cons))
+//@   loop 0 invariant !consumes ==> exists(c * node, in(c, n.kids) && in(c, t.nulls))
+//@   -- loop 1: the members of a sequence (slices.ContainsFunc over slices.Collect(n.Iterator()), executed by its definition)
+//@   loop 1 invariant frameCR(t, ruleReached)
+//@   loop 1 invariant in(n, t.visited) && grows(t) && sameMarks(ruleReached)
+//@   loop 1 invariant t.nwarn - old(t.nwarn) == t.reent - old(t.reent) && t.reent >= old(t.reent)
+//@   loop 1 invariant imp(t.reent == old(t.reent), t.werr == old(t.werr)) && imp(t.reent > old(t.reent), t.werr != nil)
+//@   loop 1 invariant cur() == nil || in(cur(), n.kids)
+//@   loop 1 invariant forall(c * node, in(c, n.kids) && before(c, cur()) ==> in(c, t.visited) && in(c, t.nulls))
+
+//@ -- ------------------------------------------------------------------------------------------------------------------
+//@ -- countRules(n, ruleReached): depth-first walk over everything reachable from n; every entry of a rule node adds one
+//@ -- to t.rulesCount[name]; a rule whose mark is set is counted but not walked again.
+//@ -- Ghost state:
+//@ --   Tree.cvis   nodes on which countRules has been entered;   Tree.open  the nodes whose walk is in progress
+//@ --   node.hits   number of times countRules has been entered on this rule node
+//@ --   Tree.reach  ANY set that contains n and is closed under the edges of the walk (a parameter of the contract: the
+//@ --               postcondition cvis <= reach holds for every such set, hence for the least one: only reachable nodes are visited)
+//@ -- With open empty and cvis empty at the outermost call (first rule), the postconditions give: cvis contains the first rule
+//@ -- and is closed under the edges (C1-C3), and cvis <= reach: cvis is exactly the set of nodes reachable from the first rule.
+//@ -- VH and CNT then say: a rule has an entry in t.rulesCount exactly when it is reachable, and the entry is its number of hits.
+//@ ghostfield Tree.cvis set
+//@ ghostfield Tree.open set
+//@ ghostfield Tree.reach set
+//@ ghostfield node.hits int
+//@ -- wfDefs: a rule node of t.nodes is the registered definition of its name (so names identify rule nodes)
+//@ pred wfDefs(t *Tree) = forall(r * node, trig(in(r, t.nodes)), in(r, t.nodes) && r.Type == TypeRule ==> ruleOf(t, r) == r)
+//@ pred C1(t *Tree) = forall(m * node, trig(in(m, t.cvis)), in(m, t.cvis) && frontT(m.Type) ==> in(m, t.open) || in(m.front, t.cvis))
+//@ pred C2(t *Tree) = forall(m * node, trig(in(m, t.cvis)), in(m, t.cvis) && m.Type == TypeName ==> in(m, t.open) || in(ruleOf(t, m), t.cvis))
+//@ pred C3(t *Tree) = forall(m * node, c * node, trig(in(m, t.cvis), in(c, m.kids)), in(m, t.cvis) && listT(m.Type) && in(c, m.kids) ==> in(m, t.open) || in(c, t.cvis))
+//@ pred RC1(t *Tree) = forall(m * node, trig(in(m, t.reach)), in(m, t.reach) && frontT(m.Type) ==> in(m.front, t.reach))
+//@ pred RC2(t *Tree) = forall(m * node, trig(in(m, t.reach)), in(m, t.reach) && m.Type == TypeName ==> in(ruleOf(t, m), t.reach))
+//@ pred RC3(t *Tree) = forall(m * node, c * node, trig(in(m, t.reach), in(c, m.kids)), in(m, t.reach) && listT(m.Type) && in(c, m.kids) ==> in(c, t.reach))
+//@ pred SUB(t *Tree) = forall(m * node, in(m, t.cvis) ==> in(m, t.reach) && in(m, t.nodes))
+//@ -- RM: a marked rule has been visited;  VH: visited <=> hits > 0;  CNT: the map entry of a rule's name is its number of hits
+//@ pred RM(t *Tree, rr []bool) = forall(r * node, trig(in(r, t.nodes)), in(r, t.nodes) && r.Type == TypeRule && rr[r.id] ==> in(r, t.cvis))
+//@ pred VH(t *Tree) = forall(r * node, trig(in(r, t.nodes)), in(r, t.nodes) && r.Type == TypeRule ==> r.hits >= 0 && (r.hits > 0) == in(r, t.cvis))
+//@ pred CNT(t *Tree) = forall(r * node, trig(in(r, t.nodes)), in(r, t.nodes) && r.Type == TypeRule ==>
+//@        ite(r.hits == 0, !mapHas(t.rulesCount, r.string), mapHas(t.rulesCount, r.string) && mapGet(t.rulesCount, r.string) == r.hits))
+//@ pred cvisGrows(t *Tree) = forall(m * node, old(in(m, t.cvis)) ==> in(m, t.cvis))
+//@ pred marksGrow(rr []bool) = forall(i, 0 <= i && i < len(rr) && old(rr[i]) ==> rr[i])
+//@ pred frameCU(t *Tree, rr []bool) = frameOld("Tree.cvis", t) && frameOld("Tree.open", t) && frameOld("Elems.Bool", sbase(rr))
+//@        && frameOld("MapDom.Str!Int", t.rulesCount) && frameOld("MapVal.Str!Int", t.rulesCount)
+//@        && forall(r * node, 0 < r && r < old(alloc) && !(in(r, t.nodes) && r.Type == TypeRule) ==> r.hits == old(r.hits))
+//@ func Tree.countRules
+//@   requires wf(t) && wfDefs(t) && in(n, t.nodes) && len(ruleReached) == t.RulesCount
+//@   requires t.rulesCount != nil && t.rulesCount != t.Rules
+//@   requires RC1(t) && RC2(t) && RC3(t) && in(n, t.reach) && SUB(t)
+//@   requires C1(t) && C2(t) && C3(t) && RM(t, ruleReached) && VH(t) && CNT(t)
+//@   ensures in(n, t.cvis) && cvisGrows(t) && t.open == old(t.open) && marksGrow(ruleReached)
+//@   ensures C1(t) && C2(t) && C3(t) && SUB(t)
+//@   ensures RM(t, ruleReached) && VH(t) && CNT(t)
+//@   modifies Elems.Bool at b where b == sbase(ruleReached)
+//@   modifies MapDom.Str!Int, MapVal.Str!Int at r where r == t.rulesCount
+//@   modifies Tree.cvis, Tree.open at r where r == t
+//@   modifies node.hits at r where in(r, t.nodes) && r.Type == TypeRule
+//@   ghost entry : t.cvis = add(t.cvis, n)
+//@   ghost entry : t.open = add(t.open, n)
+//@   ghost entry : n.hits = n.hits + ite(n.Type == TypeRule, 1, 0)
+//@   ghost return : t.open = old(t.open)
+//@   loop 0 invariant frameCU(t, ruleReached)
+//@   loop 0 invariant in(n, t.cvis) && cvisGrows(t) && t.open == add(old(t.open), n) && marksGrow(ruleReached)
+//@   loop 0 invariant C1(t) && C2(t) && C3(t) && SUB(t)
+//@   loop 0 invariant RM(t, ruleReached) && VH(t) && CNT(t)
+//@   loop 0 invariant cur() == nil || in(cur(), n.kids)
+//@   loop 0 invariant forall(c * node, in(c, n.kids) && before(c, cur()) ==> in(c, t.cvis))
+
+//@ -- ------------------------------------------------------------------------------------------------------------------
+//@ -- CheckAlwaysSucceeds / checkAlwaysSucceedsRecursion: memory safety, frame, and "the set of rules in progress (the keys
+//@ -- mapped to true in visited) is restored". The returned value is not specified here.
+//@ pred inProgress(v map[*node]bool, k *node) = mapHas(v, k) && mapGet(v, k)
+//@ pred sameProgress(v map[*node]bool) = forall(k * node, inProgress(v, k) == old(inProgress(v, k)))
+//@ func node.checkAlwaysSucceedsRecursion
+//@   requires wf(t) && in(n, t.nodes) && visited != nil
+//@   ensures sameProgress(visited)
+//@   modifies MapDom.Int!Bool, MapVal.Int!Bool at r where r == visited
+//@   -- defensive code that wf makes unreachable (found by the path canaries, proved infeasible). The ordinals are those of
+//@   -- the return canaries in the order govc generates them (one per return; `debug` prints a provable canary as `unsat`):
+//@   dead 2 : `return false` for a <> / implicit push without operand: wf gives such a node a first child
+//@   dead 10 : `if rule == nil`: after link every name is registered in t.Rules (W3)
+//@   dead 11 : `return false` for a rule without expression: wf gives a rule node a first child
+//@   loop 0 invariant frameOld("MapDom.Int!Bool", visited) && frameOld("MapVal.Int!Bool", visited) && sameProgress(visited)
+//@   loop 0 invariant cur() == nil || in(cur(), n.kids)
+//@   loop 1 invariant frameOld("MapDom.Int!Bool", visited) && frameOld("MapVal.Int!Bool", visited) && sameProgress(visited)
+//@   loop 1 invariant cur() == nil || in(cur(), n.kids)
+//@ func node.CheckAlwaysSucceeds
+//@   requires wf(t) && in(n, t.nodes)
+//@   modifies MapDom.Int!Bool, MapVal.Int!Bool at r where false
+
+//@ -- ------------------------------------------------------------------------------------------------------------------
+//@ -- verification-only code (lemmas_verif.go): exercises the Iterator2 model (running index and element)
+//@ func verifLast
+//@   requires wf(t) && in(n, t.nodes) && listT(n.Type)
+//@   ensures count >= 0 && (count == 0) == (n.front == nil)
+//@   ensures last == nil || (in(last, n.kids) && last.next == nil)
+//@   loop 0 invariant count == idx() && (idx() == 0) == (cur() == n.front && last == nil) && idx() >= 0
+//@   loop 0 invariant cur() == nil || in(cur(), n.kids)
+//@   loop 0 invariant last == nil || (in(last, n.kids) && last.next == cur())
